@@ -750,6 +750,211 @@ def feat_for(rng):
     return {}
 
 
+# ----------------------------------------------------------------------------------------- `==` (K only: model pathEqB vs real __eq__)
+
+def eq_tables(*mpaths):
+    """equivalence classes, by the real Python, of the float and datetime texts occurring in the model paths"""
+    import pywbem
+    reals, dts = {}, {}
+
+    def walk(mp):
+        for k, v in mp['keys']:
+            if v['t'] == 'real':
+                reals[common.from_cps(v['v'])] = None
+            elif v['t'] == 'dt':
+                dts[common.from_cps(v['v'])] = None
+            elif v['t'] == 'ref':
+                walk(v['v'])
+    for mp in mpaths:
+        walk(mp)
+    ids = {}
+    rt = []
+    for t in reals:
+        x = float(t)
+        rt.append([common.cps(t), None if x != x else ids.setdefault(x, len(ids))])
+    reps, dt = [], []
+    for t in dts:
+        o = pywbem.CIMDateTime(t)
+        for i, r in enumerate(reps):
+            if r == o:
+                dt.append([common.cps(t), i])
+                break
+        else:
+            reps.append(o)
+            dt.append([common.cps(t), len(reps) - 1])
+    return rt, dt
+
+
+def mutate_spec(spec, rng, depth=0):
+    """a path that differs from spec in exactly one place (the place may or may not matter for `==`)"""
+    import copy
+    s = copy.deepcopy(spec)
+    r = rng.random()
+    if r < 0.12:
+        s['host'] = rng.choice([None, 'other.example', (s['host'] or 'h') + 'x', (s['host'] or 'H').swapcase()])
+    elif r < 0.24:
+        s['ns'] = rng.choice([None, 'root/other', (s['ns'] or 'n') + 'x', (s['ns'] or 'N').swapcase(), '/' + (s['ns'] or 'n') + '/'])
+    elif r < 0.34:
+        s['cls'] = rng.choice([s['cls'] + 'x', s['cls'].swapcase(), s['cls'][:-1] or 'Z'])
+    elif not s['keys'] or r < 0.42:
+        s['keys'].append(['zz_extra', {'t': 'bool', 'v': True}])
+    elif r < 0.50:
+        del s['keys'][rng.randrange(len(s['keys']))]
+    elif r < 0.58:
+        i = rng.randrange(len(s['keys']))
+        s['keys'][i][0] = rng.choice([s['keys'][i][0].swapcase(), s['keys'][i][0] + 'x'])
+    else:
+        i = rng.randrange(len(s['keys']))
+        v = s['keys'][i][1]
+        t = v['t']
+        if t == 'ref' and depth < 3 and rng.random() < 0.8:
+            v['v'] = mutate_spec(v['v'], rng, depth + 1)
+        elif t in ('str', 'char16'):
+            s['keys'][i][1] = rng.choice([{'t': 'str', 'v': v['v'] + 'x'}, {'t': 'str', 'v': v['v'].swapcase()}, {'t': 'int', 'v': '1'},
+                                           {'t': 'str', 'v': v['v']}])
+        elif t == 'bool':
+            s['keys'][i][1] = rng.choice([{'t': 'bool', 'v': not v['v']}, {'t': 'int', 'v': '1' if v['v'] else '0'},
+                                           {'t': 'uint8', 'v': '0' if v['v'] else '1'}, {'t': 'str', 'v': 'TRUE'}])
+        elif t == 'int' or t in INT_TYPES:
+            n = int(v['v'])
+            s['keys'][i][1] = rng.choice([{'t': 'int', 'v': str(n + 1)}, {'t': 'int', 'v': str(n)}, {'t': 'str', 'v': str(n)},
+                                           {'t': 'bool', 'v': n == 1}, {'t': 'bool', 'v': n != 0}])
+        elif t in ('float', 'real32', 'real64'):
+            x = float('nan') if v['v'] == 'nan' else float.fromhex(v['v'])
+            alt = [-x, x, x * 2 + 1.0]
+            y = rng.choice(alt)
+            s['keys'][i][1] = rng.choice([{'t': 'float', 'v': 'nan' if y != y else float(y).hex()}, {'t': 'str', 'v': 'x'}])
+        elif t == 'dt':
+            s['keys'][i][1] = rng.choice([{'t': 'dt', 'v': g_datetime(rng)}, {'t': 'dt', 'v': shift_zone(v['v'])}, {'t': 'str', 'v': v['v']}])
+        else:
+            s['keys'][i][1] = {'t': 'str', 'v': 'x'}
+    return s
+
+
+def shift_zone(s):
+    """the same point in time written in another time zone (equal as CIMDateTime), when that is easy to write"""
+    if len(s) == 25 and s[21] == '+' and '*' not in s and s[22:] == '000' and s[8:10].isdigit() and int(s[8:10]) < 23:
+        return s[:8] + '%02d' % (int(s[8:10]) + 1) + s[10:21] + '+060'
+    return s
+
+
+def real_eq(a, b):
+    try:
+        with warnings.catch_warnings():
+            warnings.simplefilter('ignore')
+            return bool(a == b)
+    except Exception as e:  # noqa
+        return 'EXC:' + type(e).__name__
+
+
+def do_eq(run, batch, pa, pb, what_case):
+    """model pathEqB vs the real CIMInstanceName.__eq__ on one pair of real objects"""
+    ma, mb = model_path(pa), model_path(pb)
+    rt, dt = eq_tables(ma, mb)
+    r = real_eq(pa, pb)
+    run.count('eq:%s' % r)
+    batch.add({'op': 'eq', 'p': ma, 'q': mb, 'tab': tab_for(*(path_texts(pa, []) + path_texts(pb, []))), 'reals': rt, 'dts': dt},
+              'eq', what_case, {'eq': r})
+
+
+# ----------------------------------------------------------------------------------------- glue (K only)
+
+FMT_NAMES = list(FMTS) + ['Standard', 'CANONICAL', '', 'cim_object', 'histor', 'standard ', 'xml', 'canonical\n']
+
+
+def do_glue(run, batch, spec, p, rng):
+    """format-argument validation, __str__, get_cimobject_header, the constructor (namespace setter, NocaseDict copy)"""
+    from pywbem._cim_http import get_cimobject_header
+    import pywbem
+    tab = tab_for(*path_texts(p, []))
+    mp = model_path(p)
+    name = rng.choice(FMT_NAMES)
+    try:
+        with warnings.catch_warnings():
+            warnings.simplefilter('ignore')
+            real = {'ok': p.to_wbem_uri(format=name)}
+    except Exception as e:  # noqa
+        real = common.exc_json(e)
+    run.count('fmtarg:' + ('ok' if 'ok' in real else real['exc']))
+    batch.add({'op': 'tofmt', 'name': name, 'path': mp, 'tab': tab}, 'glue', {'kind': 'glue', 'op': 'to_wbem_uri', 'format': name, 'spec': spec}, real)
+    with warnings.catch_warnings():
+        warnings.simplefilter('ignore')
+        batch.add({'op': 'strof', 'path': mp, 'tab': tab}, 'glue', {'kind': 'glue', 'op': 'str', 'spec': spec}, {'ok': str(p)})
+        k = rng.random()
+        if k < 0.5:
+            arg, req = p, {'op': 'hdr', 'kind': 'inst', 'path': mp, 'tab': tab}
+        elif k < 0.7:
+            arg = pywbem.CIMClassName(p.classname, host=p.host, namespace=p.namespace)
+            req = {'op': 'hdr', 'kind': 'cls', 'cpath': model_cpath(arg), 'tab': tab}
+        elif k < 0.85:
+            arg = rng.choice(['root/cimv2:CIM_Foo', '', 'x y', p.to_wbem_uri()])
+            req = {'op': 'hdr', 'kind': 'text', 'text': common.cps(arg), 'tab': tab}
+        else:
+            arg, req = rng.choice([None, 42, b'root:C', 1.5, ['C'], pywbem.CIMInstance('C')]), {'op': 'hdr', 'kind': 'other', 'tab': tab}
+        try:
+            real = {'ok': get_cimobject_header(arg)}
+        except Exception as e:  # noqa
+            real = common.exc_json(e)
+    run.count('hdr:' + ('ok' if 'ok' in real else real['exc']))
+    batch.add(req, 'glue', {'kind': 'glue', 'op': 'get_cimobject_header', 'arg': repr(type(arg).__name__), 'spec': spec}, real)
+    # the constructor, with a key list that may contain names equal up to case and a namespace with slashes
+    kbs = [[k0, v0] for k0, v0 in spec['keys']]
+    if kbs and rng.random() < 0.5:
+        k0, v0 = rng.choice(kbs)
+        kbs.insert(rng.randrange(len(kbs) + 1), [rng.choice([k0.swapcase(), k0.upper(), k0]), {'t': 'int', 'v': str(rng.randint(0, 9))}])
+    ns = spec['ns']
+    if ns is not None and rng.random() < 0.5:
+        ns = rng.choice(['/', '//', '']) + ns + rng.choice(['/', '//', ''])
+    try:
+        with warnings.catch_warnings():
+            warnings.simplefilter('ignore')
+            vals = [(k0, build_val(v0)) for k0, v0 in kbs]
+            q = pywbem.CIMInstanceName(spec['cls'], keybindings=vals, host=spec['host'], namespace=ns)
+            real = {'ok': canon_real_path(q)}
+            mkeys = [[common.cps(k0), model_val(v0)] for k0, v0 in vals]
+    except Exception as e:  # noqa
+        return
+    alltext = [spec['cls'], spec['host'] or '', ns or ''] + [k0 for k0, _ in kbs] + path_texts(q, [])
+    batch.add({'op': 'mk', 'cls': common.cps(spec['cls']), 'keys': mkeys, 'host': opt_cps(spec['host']), 'ns': opt_cps(ns),
+               'tab': tab_for(*alltext)}, 'mk', {'kind': 'glue', 'op': 'CIMInstanceName()', 'keys': kbs, 'ns': ns, 'spec': spec}, real)
+
+
+NOT_WORD = ['/', ':', '.', ',', '=', '"', "'", '\\', '\n', '-', '+', '*', '@', '[', ']', '%', ' ']
+
+
+def check_tabok_exhaustive(run):
+    """the five per-character facts `TabOkChar` (Proofs/Lemmas/Uri.lean) for every code point of the running Python:
+    what the round-trip theorems assume about `\\w`, str.lower() and str.casefold()"""
+    bad = []
+    for cp in range(0x110000):
+        if 0xD800 <= cp <= 0xDFFF:
+            continue
+        c = chr(cp)
+        lo = c.lower()
+        if ''.join(d.casefold() for d in lo) != c.casefold():
+            bad.append(('fold_lower', cp))
+        if ''.join(d.lower() for d in lo) != lo:
+            bad.append(('lower_idem', cp))
+        if cp < 128:
+            exp = chr(cp + 32) if 65 <= cp <= 90 else c
+            if lo != exp:
+                bad.append(('lower_ascii', cp))
+    for c in NOT_WORD:
+        if _W.match(c):
+            bad.append(('not_word', ord(c)))
+    for c in '0123456789':
+        if not _W.match(c):
+            bad.append(('digit_word', ord(c)))
+    # also: the two ways the model's tables are used agree with the string functions on whole strings (sample)
+    for t in ['Straße', 'ǅ', 'İx', 'ΑΒΓ', 'Éé', 'ﬁ', 'K', 'ẞ']:
+        if ''.join(d.casefold() for d in t) != t.casefold():
+            bad.append(('casefold_charwise', t))
+    run.count('tabok_exhaustive:' + ('ok' if not bad else 'FAILED'))
+    run.extra['tabok_exhaustive'] = {'code_points': 0x110000 - 0x800, 'violations': bad[:20]}
+    if bad:
+        run.disagree({'kind': 'tabok'}, 'TabOkChar holds', bad[:20], 'character-table hypotheses of the theorems')
+
+
 class Batch:
     """requests for the model driver, flushed in chunks so that the thorough tier stays within memory"""
 
@@ -782,6 +987,17 @@ class Batch:
                 m = model_parse_canon(ans, 'class')
                 if m != real:
                     run.disagree(case, m, real, 'CIMClassName.from_wbem_uri')
+            elif what == 'eq':
+                if ans != real:
+                    run.disagree(case, ans, real, '__eq__')
+            elif what == 'glue':
+                m = {'ok': common.from_cps(ans['ok'])} if 'ok' in ans else ans
+                if m != real:
+                    run.disagree(case, m, real, case.get('op', 'glue'))
+            elif what == 'mk':
+                m = model_parse_canon(ans, 'inst')
+                if m != real:
+                    run.disagree(case, m, real, 'CIMInstanceName constructor')
             else:
                 if ans != real:
                     run.disagree(case, ans, real, 'literal recognisers')
@@ -821,6 +1037,26 @@ def do_path(run, batch, spec, vspec, pool, rng, stats=True):
     if pv is not None:
         batch.add({'op': 'to', 'fmt': 'canonical', 'path': model_path(pv), 'tab': tab_for(*path_texts(pv, []))}, 'to',
                   {'kind': 'path', 'spec': vspec, 'fmt': 'canonical'}, pv.to_wbem_uri(format='canonical'))
+        do_glue(run, batch, spec, p, rng)
+        # `==`: the variant, the re-parsed path, and a path that differs in one place (both directions)
+        do_eq(run, batch, p, pv, {'kind': 'eqpair', 'a': spec, 'b': vspec})
+        with warnings.catch_warnings():
+            warnings.simplefilter('ignore')
+            ms = mutate_spec(spec, rng)
+            try:
+                pm = build_path(ms)
+            except Exception:  # noqa  (e.g. a datetime text the constructor refuses)
+                pm = None
+            if pm is not None:
+                do_eq(run, batch, p, pm, {'kind': 'eqpair', 'a': spec, 'b': ms})
+                do_eq(run, batch, pm, p, {'kind': 'eqpair', 'a': ms, 'b': spec})
+            if 'standard' in printed:
+                try:
+                    q = __import__('pywbem').CIMInstanceName.from_wbem_uri(printed['standard'])
+                except Exception:  # noqa
+                    q = None
+                if q is not None:
+                    do_eq(run, batch, q, p, {'kind': 'eqpair', 'a': 'reparsed(standard)', 'b': spec})
 
 
 def do_cpath(run, batch, spec, vspec, pool):
@@ -835,6 +1071,13 @@ def do_cpath(run, batch, spec, vspec, pool):
                   {'kind': 'text', 'text': printed[fmt]}, real_parse(printed[fmt], 'class'))
         if pool is not None and len(pool) < 4000:
             pool.append(printed[fmt])
+    if vspec is not None:
+        for other in (vspec, {'host': spec['host'], 'ns': spec['ns'], 'cls': spec['cls'] + 'x'},
+                      {'host': None if spec['host'] else 'h', 'ns': spec['ns'], 'cls': spec['cls']},
+                      {'host': spec['host'], 'ns': (spec['ns'] or 'n') + '/x', 'cls': spec['cls']}):
+            po = build_cpath(other)
+            batch.add({'op': 'eqc', 'p': model_cpath(p), 'q': model_cpath(po), 'tab': tab_for(*(path_texts(p, []) + path_texts(po, [])))},
+                      'eq', {'kind': 'eqcpair', 'a': spec, 'b': other}, {'eq': real_eq(p, po)})
 
 
 def do_text(run, batch, text):
@@ -925,6 +1168,10 @@ def run(run):
                 'namespace, host or scheme is a format-hostile token ({name}, {2}, {0!r}, %s, %(x)s, {{, }}, backslashes); '
                 '(8 %) URIs without any double quote whose single-quoted char16 values contain comma / escaped apostrophe / backslash at '
                 'every key position; every text is parsed twice in the process with the first result mutated in between; '
+                '`==`: the model of CIMInstanceName/CIMClassName.__eq__ against the real one on (path, variant), (re-parsed, path) and '
+                '(path, path changed in one place: host/namespace/class/key set/key name/one value incl. bool<->int, -0.0, time zone), both directions; '
+                'glue: format-argument validation (12 names), __str__, get_cimobject_header (instance / class / str / other types), the '
+                'constructor (namespace with slashes, key lists with case-duplicate names) against the model; '
                 'literal recognisers on near-miss literals; '
                 'a path case is non-trivial when it has >= 1 keybinding, a text case when one of the two parsers accepts it')
     run.assumptions += [
@@ -933,6 +1180,7 @@ def run(run):
         'CIMDateTime value semantics are C06; here only whether the constructor accepts a text (model: dtAccepts = the [0-9], [+-], \\Z-anchored patterns of /repo HEAD)',
         'str.lower() is applied character-wise in the model (generator alphabet avoids the one context-sensitive case, capital sigma)',
     ]
+    check_tabok_exhaustive(run)
     batch = Batch(run)
     pool = []
 
